@@ -2774,3 +2774,11 @@ variant('b-orig-f28-cancel-written-for-an-unopened-stream', ['C08'], H + 'reques
 variant('b-early-credit-dropped-instead-of-carried', ['C06'], H + 'request_stream_requester.py',
         "            if n > 0:\n                self.initial_request_n(min(self._initial_request_n + n, MAX_REQUEST_N))\n\n            return\n",
         "            return\n", ('C08.m', 'RequestStreamRequester.request'))
+
+# C08.m (F28, channel requester fixed a34a39e)
+variant('b-orig-f28-channel-cancel-written-for-an-unopened-channel', ['C08'], H + 'request_channel_requester.py',
+        "    def cancel(self):\n        if not self._requested:", "    def cancel(self):\n        if False and not self._requested:",
+        ('C08.m', 'RequestChannelRequester.cancel'))
+variant('b-channel-early-credit-dropped', ['C08', 'C06'], H + 'request_channel_requester.py',
+        "            if n > 0:\n                self.initial_request_n(min(self._initial_request_n + n, MAX_REQUEST_N))\n\n            return\n\n        super().request(n)",
+        "            return\n\n        super().request(n)", ('C08.m', 'RequestChannelRequester.request'))
